@@ -196,6 +196,20 @@ def cli_case(draw):
     c["sub"] = "cli"
     c["filter"] = draw(st.sampled_from([None, None, "discard_trimmed", "discard_untrimmed"]))
     c["default_indexing"] = draw(st.booleans())
+    if draw(st.integers(0, 3)) == 0:
+        # one sequence as anchored 5', anchored 3' and regular adapter, in any order, on reads that carry it at both
+        # ends: complete ties that only the order on the command line decides; no index can be built from them
+        seq = draw(st.text(alphabet="ACGT", min_size=5, max_size=9))
+        forms = [("-g", "^" + seq, "prefix"), ("-a", seq + "$", "suffix"),
+                 draw(st.sampled_from([("-a", seq, "back"), ("-g", seq, "front"), ("-b", seq, "anywhere")]))]
+        forms = draw(st.permutations(forms))[: draw(st.integers(2, 3))]
+        c["ad"] = [{"opt": o, "spec": f"a{i}={sp}", "name": f"a{i}", "kind": k, "seqs": [seq]}
+                   for i, (o, sp, k) in enumerate(forms)]
+        insert = draw(st.text(alphabet="ACGT", min_size=0, max_size=12))
+        c["reads"] = [seq + insert + seq, seq, seq + insert] + c["reads"][:1]
+        c["default_indexing"] = True
+        if c["action"] == "crop":
+            c["action"] = "trim"
     return c
 
 
